@@ -1141,7 +1141,15 @@ func init() {
 		}
 		sb.WriteString("/-- every loop of reader/controller that receives from a channel:\n")
 		sb.WriteString("    (handler, loop, can be left by return/break/goto/panic before the channel is closed, the function leaves a drain\n    behind, it cancels, the functions called in the loop body) -/\n")
-		sb.WriteString("def handlerLoops : List (String × String × Bool × Bool × Bool × List String) :=\n  [" + strings.Join(loops, ",\n   ") + "]\n")
+		sb.WriteString("def handlerLoops : List (String × String × Bool × Bool × Bool × List String) :=\n  [" + strings.Join(loops, ",\n   ") + "]\n\n")
+		// ---- the typed census (go/types + SSA + call graph): readtyped*.go
+		typed, err := rtBuild()
+		if err != nil {
+			return "", fmt.Errorf("typed census: %v", err)
+		}
+		sb.WriteString(typed.lean())
+		sb.WriteString("\n")
+		sb.WriteString(typed.leanLoops())
 		sb.WriteString("end Qryn.Gen.ReadGoroutines\n")
 		return sb.String(), nil
 	})
